@@ -40,6 +40,16 @@ CHECKS = {
          'operand that has one. Tie: all operator pairs and triples x unit placements x literal/variable operands and random trees '
          'through the real compiler, compared with exact Fractions to 1e-9.'),
    note=BASE_NOTE + ' Open known finding C04-negvar (unary minus on a negative-valued variable) is replayed each run; PLY implementing the documented conflict rule is assumed and exercised by the operator catalogue.'),
+ 'C09': dict(category='proof',
+   technique='Lean 4 theorems over exact rationals (HLS/RGB round trip, ranges, rounding, mix) + dense-grid differential correspondence of the float code with the exact model',
+   text=('Sixteen theorems about an exact-rational transcription of colorsys and of color.py: hlsToRgb inverts rgbToHls on [0,1]^3; component '
+         'ranges; lighten/darken/saturate/desaturate by 0 and spin by 0 are the identity on every byte colour; spin is 360-periodic; greyscale '
+         'has r=g=b; the named HSL component is shifted by d/100 and clamped, the others untouched; every channel of _ophsl is within 1/2 '
+         'of the exact value (nearest integer); mix at 100%/0% returns its arguments, lies between the inputs and is the floor of the exact mean; all '
+         'results are bytes. The float implementation is tied to the exact model on short-form colours (all 4096 in thorough) + random 24-bit '
+         'colours x every function x a dense amount/angle/weight grid, under the observation the property prescribes (nearest, either '
+         'neighbour at a tie; mix within one unit).'),
+   note=BASE_NOTE + ' No float error analysis: that the double computation rounds like the exact value away from ties is what the grid run validates.'),
 }
 NOT_APPLICABLE = {p: 'check under construction in this round (see DESIGN.md section 10 build order); not claimed yet' for p in
-  ['C01','C02','C03','C05','C07','C09','C10','C11','C12','C13','C14','C15','C16','C18','C19','C20']}
+  ['C01','C02','C03','C05','C07','C10','C11','C12','C13','C14','C15','C16','C18','C19','C20']}
